@@ -111,6 +111,24 @@ const REFS: &[&str] = &[
 
 fn lead_parents(r: &str) -> usize { let mut k = 0; let mut s = r; while let Some(t) = s.strip_prefix("../") { k += 1; s = t; } k }
 
+/// the other three entry points of resolution (BaseIri::resolve_into, BaseIriRef::resolve, BaseIriRef::resolve_into)
+/// must give what BaseIri::resolve gives; returns a description of the first difference
+fn resolve_entry_points_agree(b: &str, rf: &str, expected: &Result<String, ()>) -> Option<String> {
+    use sophia_iri::resolve::BaseIriRef;
+    let base = BaseIri::new(b.to_string()).ok()?;
+    let mut buf = String::from("stale content ");
+    buf.clear();
+    let r1: Result<String, ()> = base.resolve_into(rf, &mut buf).map(|x| x.as_str().to_string()).map_err(|_| ());
+    if &r1 != expected { return Some(format!("BaseIri::resolve_into gives {r1:?} where BaseIri::resolve gives {expected:?}")); }
+    let bref = BaseIriRef::new(b.to_string()).ok()?;
+    let r2: Result<String, ()> = bref.resolve(rf).map(|x| x.as_str().to_string()).map_err(|_| ());
+    if &r2 != expected { return Some(format!("BaseIriRef::resolve gives {r2:?} where BaseIri::resolve gives {expected:?}")); }
+    let mut buf2 = String::new();
+    let r3: Result<String, ()> = bref.resolve_into(rf, &mut buf2).map(|x| x.as_str().to_string()).map_err(|_| ());
+    if &r3 != expected { return Some(format!("BaseIriRef::resolve_into gives {r3:?} where BaseIri::resolve gives {expected:?}")); }
+    None
+}
+
 fn main() {
     let a = parse_args();
     let mut sum = Summary::default();
@@ -158,6 +176,10 @@ non-trivial = IRI and base share scheme and authority text (so the path/query br
             let fail = |sum: &mut Summary, what: String| {
                 sum.oracle_failures.push((format!("{idx}/n={n}"), format!("base <{b}> iri <{i}> parents {n}: {what}")));
             };
+            if code == 1 {
+                let exp: Result<String, ()> = if back_ok { Ok(back.clone()) } else { Err(()) };
+                if let Ok(Some(d)) = std::panic::catch_unwind(|| resolve_entry_points_agree(&b, &out, &exp)) { fail(&mut sum, format!("relativize returned {out:?}; resolving it back: {d}")); }
+            }
             match code {
                 2 => fail(&mut sum, "relativize panicked".into()),
                 1 => {
@@ -198,6 +220,10 @@ non-trivial = IRI and base share scheme and authority text (so the path/query br
             let (ok, out) = match &res { Ok(x) => (true, x.as_str().to_string()), Err(_) => (false, String::new()) };
             // the model does not validate code points: keep the error cases it models (leading ':' / "//" path) only
             if !ok && !rf.starts_with(':') && !format!("{:?}", res).contains("TwoSlashes") { sum.bump("resolve:other-error-skipped"); continue }
+            {
+                let exp: Result<String, ()> = if ok { Ok(out.clone()) } else { Err(()) };
+                if let Ok(Some(d)) = std::panic::catch_unwind(|| resolve_entry_points_agree(&b, &rf, &exp)) { sum.oracle_failures.push((format!("{idx}/resolve"), format!("base <{b}> reference {rf:?}: the entry points of resolution disagree: {d}"))); }
+            }
             sum.bump(if ok { "resolve:ok" } else { "resolve:error" });
             body.push(format!("resolve_ok b {} {} {}", coq_bytes(rf.as_bytes()), coq_bool(ok), coq_bytes(out.as_bytes())));
             body.push(format!("resolve_rfc_ok b {} {} {}", coq_bytes(rf.as_bytes()), coq_bool(ok), coq_bytes(out.as_bytes())));
